@@ -479,6 +479,22 @@ def run(ctx):
         if shape != model_shape(ms):
             ctx.corr_broken('scope actions of the parser differ from coq/C13/ParseScope.v', r, shape, model_shape(ms))
     ctx.cov['parse_traces_with_scope_actions'] = pushing_traces
+    # constructs the evaluator model does not have (external function definitions, typed and untyped parameters, inside contexts / iterations / other
+    # functions), parsed over a scope the caller keeps: the scope is as it was (seeded change C13_k: the `external` body popped once more)
+    ext = 'external {java: {class: "java.lang.Math", method signature: "cos(double)"}}'
+    extra = ['function(x) %s' % ext, 'function() %s' % ext, 'function(x: number, y) %s' % ext, '{f: function(x) %s, r: va}' % ext, '[function(x) %s, va]' % ext,
+             'for i in [1, 2] return function(x) %s' % ext, 'function(q) function(x) %s' % ext, '{a: {f: function(x) %s}, b: va + 1}' % ext,
+             'some i in [function(x) %s] satisfies true' % ext, 'if true then function(x) %s else va' % ext, 'function(x) x + va', 'function() va']
+    xreqs = [{'ctx': c, 'e': e} for e in extra for c in ('{va: 1, vb: {vc: 2}}', '')]
+    for rq, (ok, shape, s0, s1) in zip(xreqs, parse_traces(ctx, xreqs)):
+        ctx.evaluations += 1
+        if not ok:
+            ctx.corr_broken('directed text rejected by the parser', rq, 'rejected', 'accepted')
+            continue
+        ctx.corr_checked += 1
+        ctx.nontrivial.add('parse:' + rq['e'] + rq['ctx'])
+        if s0 != s1:
+            ctx.violation('a successful parse altered the parsing scope: %s -> %s' % (s0, s1), rq)
     # ---- shuffled repeated invocations of one model evaluator (decisions, boxed context, BKM)
     mreqs, mexp = [], []
     for _ in range(ctx.pick(60, 600)):
